@@ -27,7 +27,8 @@ static void *ST;               /* live state block */
 static int dead;               /* run unusable (spin) */
 static long callno;
 static long hook_records;
-static int terminal;           /* a terminal code has been returned: further FEEDs are skipped until AFTER */
+static int terminal;
+static int term_code = -1;           /* a terminal code has been returned: further FEEDs are skipped until AFTER */
 static int quiet_ok;           /* do not log plain OK returns */
 static long chunk_n;           /* length of the chunk being fed */
 
@@ -151,7 +152,7 @@ static int do_feed(const uint8_t *bytes, int n, const char *kind) {
         drv_pp = NULL;
         P->invariants(ST);
         log_ret(kind, code, P->indirect ? drv_base + (long)(p - buf) : -1, ST);
-        if (!is_yield(code)) { if (code != P->code_ok) terminal = 1; break; }
+        if (!is_yield(code)) { if (code != P->code_ok) { terminal = 1; term_code = code; } break; }
         if (saved_p != p) { for (int i = 0; i < nsaved; i++) free(saved[i]); nsaved = 0; saved_p = p; }
         int rep = 0;
         for (int i = 0; i < nsaved; i++) if (memcmp(saved[i], ST, P->state_size) == 0) rep = 1;
@@ -225,7 +226,7 @@ int main(int argc, char **argv) {
             P = drv_progs[k];
             fprintf(drv_log, "B %s %ld\n", a1, k);
             fflush(drv_log);
-            dead = 0; callno = 0; hook_records = 0; drv_base = 0; poison = -1; bound = 20000; terminal = 0; quiet_ok = 0; chunk_n = 0;
+            dead = 0; callno = 0; hook_records = 0; drv_base = 0; poison = -1; bound = 20000; terminal = 0; term_code = -1; quiet_ok = 0; chunk_n = 0;
             continue;
         }
         if (!P) continue;
@@ -254,6 +255,9 @@ int main(int argc, char **argv) {
             for (int i = 0; i < n && !dead && !terminal; i++) do_feed(bytes + i, 1, "F");
         }
         else if (!strcmp(cmd, "END")) { if (P->has_end && !terminal) { int c = do_end(ST, "E"); if (c != P->code_ok) terminal = 1; } }
+        else if (!strcmp(cmd, "ENDIFDONE")) {   /* end() after feed() has already reported DONE: the program has reached its end */
+            if (P->has_end && terminal && term_code == P->code_done && !dead) do_end(ST, "D");
+        }
         else if (!strcmp(cmd, "ENDCOPY")) {
             if (P->has_end) {
                 void *c = malloc(P->state_size);
